@@ -88,6 +88,10 @@ def gen_cases(ctx, flags, n_random, n_sign):
         for idx in range(ni):
             for f in flags:
                 yield {"k": "pre", "tx": raw, "flag": f, "idx": idx, "script": mk_subscript(r, r.choice(["p2pkh", "one", "sep"])).hex(), "value": gen.u64(r), "null_outpoint": True}
+                # subscript = exactly one direct push (with and without separators around it): the shape a coinbase normalisation keys on
+                sp = bytes([r.choice([1, 3, 4, 33, 75])])
+                sp = sp + gen.rbytes(r, sp[0])
+                yield {"k": "pre", "tx": raw, "flag": f, "idx": idx, "script": (sp if idx % 2 == 0 else b"\xab" + sp + b"\xab").hex(), "value": gen.u64(r), "null_outpoint": True}
         yield {"k": "sign", "tx": raw, "flag": r.choice(flags), "idx": 0, "script": mk_subscript(r, "p2pkh").hex(), "value": gen.u64(r), "key": "%064x" % r.randrange(1, ec.N), "compressed": True, "nonce": None, "ext": None, "null_outpoint": True}
     # twin inputs: the signed input has exact duplicates (same outpoint, sequence and script) elsewhere in the transaction, and the
     # subscript is empty / only code separators / equal to the twins' script (selection of "the signed input" by value instead of by position)
